@@ -6,7 +6,7 @@ from simkit import sessioncheck
 PROPERTY = "C11"
 ENGINE = "session"
 LEVEL = "exploration"
-BUDGET = {"quick": (30000, 45), "thorough": (2000000, 540)}
+BUDGET = {"quick": (80000, 60), "thorough": (2000000, 540)}
 RULE = ("seeded histories: build a small document, clone / export_leaf any node with all flag "
         "combinations, take p.values and hold lists passed as values=, then edit copy and original "
         "alternately (values incl. nested n-tuple lists, renames, structure, cardinalities, merge). "
